@@ -94,6 +94,10 @@ fn render(f: &FileC) -> String {
       Line::Call(fi, a) => out.push(format!("{pad}{}({});", FUNCS[*fi as usize % FUNCS.len()], ARGS[*a as usize % ARGS.len()])),
       Line::MultiLineCall(fi, a) => {
         out.push(format!("{pad}{}(", FUNCS[*fi as usize % FUNCS.len()]));
+        // sometimes with an empty line inside the match
+        if a % 3 == 0 {
+          out.push(String::new());
+        }
         out.push(format!("{pad}  {}", ARGS[*a as usize % ARGS.len()]));
         out.push(format!("{pad});"));
       }
@@ -259,7 +263,7 @@ pub fn check(case: &Case, st: &mut Stats) -> CheckResult {
   }
   st.eval();
   let recs = match case.json_style.as_str() {
-    "stream" => out.json_lines(),
+    "stream" => out.json_lines_strict(),
     _ => out.json_array(),
   };
   let recs = match recs {
